@@ -895,7 +895,7 @@ func (e *SpecEnv) goCall(fn *ssa.Function, args []Expr, cur, old *State) Val {
 		}
 		if bound {
 			// under a quantifier: the shadow function (defined at every inlined call)
-			return ufResult(e.f, fmt.Sprintf("pure|%s|%d", fnDisplayName(fn), 0), vals, fn.Signature.Results().At(0).Type())
+			return ufResult(e.f, fmt.Sprintf("pure|%s|%d", fnDisplayName(fn), 0), shadowArgs(fn, vals), fn.Signature.Results().At(0).Type())
 		}
 	}
 	if len(e.bound) > 0 && !shadow {
@@ -912,7 +912,7 @@ func (e *SpecEnv) goCall(fn *ssa.Function, args []Expr, cur, old *State) Val {
 	vc.noSafe--
 	vc.inlined[fnDisplayName(fn)+" (in contract)"] = true
 	if shadow && len(res) == 1 && len(res[0].L) == 1 {
-		u := ufResult(e.f, fmt.Sprintf("pure|%s|%d", fnDisplayName(fn), 0), vals, res[0].T)
+		u := ufResult(e.f, fmt.Sprintf("pure|%s|%d", fnDisplayName(fn), 0), shadowArgs(fn, vals), res[0].T)
 		vc.fact(Eq(u.one(), res[0].one()))
 	}
 	if len(res) == 0 {
